@@ -1728,6 +1728,11 @@ func (t *tScreen) parseFunctionKey(buf *bytes.Buffer, evs *[]Event) (bool, bool)
 			if t.escaped {
 				mod |= ModAlt
 				t.escaped = false
+				if k.key == keyPasteStart || k.key == keyPasteEnd {
+					// a paste bracket is a report, not a key that Alt
+					// could modify: the held-back ESC is an Esc keypress
+					*evs = append(*evs, NewEventKey(KeyEsc, 0, ModNone))
+				}
 			}
 			switch k.key {
 			case keyPasteStart:
